@@ -54,15 +54,18 @@ Proof. intros. exact (module_equiv_gen fuel ts main). Qed.
 Print Assumptions C05_module_equiv.
 
 (* a module exposes exactly the public names whose LAST top-level binder is an assignment or a
-   macro: imported names are not re-exported, names starting with "_" never — for every template
+   macro: imported names are not re-exported, names starting with "_" never (for a body without extends: a
+   template that extends exports in addition what its parent's top level exports, which is covered by
+   C05_module_equiv and the tie) — for every template
    body, template set, recursion bound and either way of building contexts *)
 Theorem C05_module_exports_exact : forall (P : policy) (ts : tset) (fuel : nat) (s s' : st) (body : list stmt) (x : name),
+  no_extend body = true ->
   c_exported (s_ctx s) = [] -> run_body P ts fuel true s body = Ok s' ->
   mem x (c_exported (s_ctx s')) = exported_spec body x /\
   (dget x (get_exported (s_ctx s')) <> None -> exported_spec body x = true).
 Proof.
-  intros P ts fuel s s' body x H0 H. split; [exact (exports_exact_gen P ts fuel s body s' x H0 H)|].
-  intros Hx. rewrite <- (exports_exact_gen P ts fuel s body s' x H0 H). exact (get_exported_names (s_ctx s') x Hx).
+  intros P ts fuel s s' body x Hn H0 H. split; [exact (exports_exact_gen P ts fuel s body s' x Hn H0 H)|].
+  intros Hx. rewrite <- (exports_exact_gen P ts fuel s body s' x Hn H0 H). exact (get_exported_names (s_ctx s') x Hx).
 Qed.
 Print Assumptions C05_module_exports_exact.
 
